@@ -185,6 +185,35 @@ func losslessSpace(part, parts int) {
 	}
 	// sequences of 2..3 records over a small message set, every time stamp
 	msgs := [][]byte{{0x90, 0x3C, 0x40}, {0xF8}, {0x0A, 0x20}, {0xF0, 0x01, 0xF7}}
+	// long streams: every pattern of one to three records over the set,
+	// repeated to 3000 records (thorough 40000), time stamps cycling (what a
+	// decoder counts, pools or grows while a stream runs)
+	{
+		total := ctx.Pick(3000, 40000)
+		var pats [][]int
+		for a := range msgs {
+			pats = append(pats, []int{a})
+			for b := range msgs {
+				pats = append(pats, []int{a, b})
+				for c := range msgs {
+					pats = append(pats, []int{a, b, c})
+				}
+			}
+		}
+		for pi, pat := range pats {
+			if pi%parts != part {
+				continue
+			}
+			recs := make([]record, 0, total+3)
+			for len(recs) < total {
+				for _, m := range pat {
+					recs = append(recs, record{stamps[len(recs)%len(stamps)], msgs[m]})
+				}
+			}
+			lossless(recs, false)
+			ctx.Add("long_record_streams", 1)
+		}
+	}
 	n := 0
 	for _, a := range msgs {
 		for _, b := range msgs {
